@@ -548,6 +548,31 @@ def F28():
         return f"appending only a directory to a non-solid archive: close() raises {type(e).__name__}: {e} (the old header is already overwritten)"
 
 
+@case
+def F14b():
+    # progress events of worker PROCESSES never reach the reporter
+    d = tmp(); p = os.path.join(d, "a.7z")
+    mk(p, [("one.txt", b"1" * 4000)], filters=[{"id": py7zr.FILTER_COPY}])
+    with py7zr.SevenZipFile(p, "a", filters=[{"id": py7zr.FILTER_COPY}]) as z:
+        z.writestr(b"2" * 4000, "two.txt")
+    from py7zr.callbacks import ExtractCallback
+    class CB(ExtractCallback):
+        def __init__(self): self.ev = []
+        def report_start_preparation(self): self.ev.append("pre")
+        def report_start(self, a, b): self.ev.append("s:" + a)
+        def report_update(self, n): self.ev.append("u")
+        def report_end(self, a, b): self.ev.append("e:" + a)
+        def report_warning(self, m): pass
+        def report_postprocess(self): self.ev.append("post")
+    got = {}
+    for mp in (False, True):
+        cb = CB()
+        with py7zr.SevenZipFile(p, mp=mp) as z:
+            z.extractall(os.path.join(d, f"o{mp}"), callback=cb)
+        got[mp] = sorted(e for e in cb.ev if e[0] in "se")
+    return f"mp=True: start/end events {got[True]} vs threads {got[False]} (events put by worker processes are lost)" if got[True] != got[False] else None
+
+
 if __name__ == "__main__":
     ids = sys.argv[1:]
     if ids == ["all"] or not ids:
